@@ -450,7 +450,7 @@ func TestCheck(t *testing.T) {
 	}
 
 	// (2) wire
-	nSeeds := r.Pick(12, 400)
+	nSeeds := r.Pick(48, 400)
 	for iat := 0; iat < 3; iat++ {
 		for _, biased := range []bool{false, true} {
 			shapes := []string{"hundred-values", "pair-with-zero", "single-1448", "single-210", "single-1365", "single-10", "single-zero", "zero-sample-f2"}
